@@ -313,7 +313,7 @@ class Renderer:
                 items = ", ".join('"' + format(i, f"0{w}b") + f'": E{n}.k{i}' for i in range(n))
                 drive.append(f"            e_{p[0]}.next = select_with(self.{p[0]}_c, {{{items}}}, default=E{n}.k0)")
             elif p[1] == "Int":
-                L.append(f"        i_{p[0]} = Signal[int](0)")
+                L.append(f"        i_{p[0]} = Signal[int](1)")
                 drive.append(f"            i_{p[0]}.next = self.{p[0]}_i")
         if drive:
             L += ["", "        @std.concurrent", "        def drive():"] + drive
@@ -457,11 +457,12 @@ def _tree_lits(t):
 def inner_cells(mode, W):
     """producers used as the inner operator of the 2-operator cells.
     'all': every 1-operator cell over W;  'rep': one representative width (2) per operator / kind combination and
-    the literals 1, -1, 2 only."""
+    the literals 1, -1, 2 only;  'repn': as 'rep' without literal operands."""
     if mode == "all":
         return cells_1op(W)
+    lits = (1, -1, 2) if mode == "rep" else ()  # 'repn': no literal inside the inner operator (except shift counts)
     return [(p, t) for p, t in cells_1op([2])
-            if t[0] in SHIFT or all(n in (1, -1, 2) for n in _tree_lits(t))]
+            if t[0] in SHIFT or all(n in lits for n in _tree_lits(t))]
 
 
 def cells_2op(W, inner="rep"):
@@ -487,7 +488,9 @@ def cells_2op(W, inner="rep"):
                         out.append((p2, t))
             if rt[0] in rv.VEC and decl and decl[1] == "u":
                 out.append((p2, ["dyn", t1, leaf]))
-            if rt[0] == "u" and decl and decl[1] in rv.VEC:
+            if rt[0] == "u" and decl and decl[1] in rv.VEC and (t1[0] == "unsigned" or decl[2] == 2):
+                # a computed index is rejected by cohdl ("temporary read before it was written") unless it is a
+                # view of a signal: keep the views and one vector width for the others
                 out.append((p2, ["dyn", leaf, t1]))
     return out
 
@@ -809,7 +812,15 @@ class _Gen:
         if self.chance(0.4):
             return ["aconst", arr[0], self.draw(self.st.integers(0, n - 1))]
         iw = max(1, (n - 1).bit_length()) if self.chance(0.7) else self.draw(self.st.integers(1, 3))
-        return ["aidx", arr[0], self.sub(("u", iw), d)]
+        return ["aidx", arr[0], self.index_operand(iw, d)]
+
+    def index_operand(self, iw, d):
+        """run-time index: cohdl only accepts a signal (or a view of one) here; computed indices stay rare"""
+        if self.chance(0.1):
+            return self.sub(("u", iw), d)
+        if self.chance(0.3):
+            return ["unsigned", self.port(self.pick(["bv", "s"]), iw)]
+        return self.port("u", iw)
 
     def mk_concat(self, ty, d):
         k, w = ty
@@ -837,7 +848,7 @@ class _Gen:
         iw = max(1, (t[1] - 1).bit_length()) if t[1] > 1 else 1
         if self.chance(0.3):
             iw = self.draw(self.st.integers(1, 4))
-        return ["dyn", self.sub(t, d), self.sub(("u", iw), d)]
+        return ["dyn", self.sub(t, d), self.index_operand(iw, d)]
 
     def mk_cmp(self, ty, d):
         k = self.pick("us")
